@@ -545,3 +545,184 @@ func retagVal(t *ref.Type, v *ref.Val) *ref.Val {
 	}
 	return &c
 }
+
+// ---- C01 phase 2: static types (default initialisers, recursion) ----
+
+func init() {
+	ck := harness.Lookup("C01")
+	old := ck.Phases
+	ck.Phases = func(tier universe.Tier) []*harness.Phase {
+		return append(old(tier), &harness.Phase{
+			Name: "static-types",
+			Rule: "types reflect.StructOf cannot build: (a) structs with default initialisers nested in 6-7 positions, element values = every subset of 4 fields away from the declared default, destination default-initialised by the caller at top level; (b) the recursive type R nested along every word of length <= 3 (thorough 4) over its six nesting steps with 1-2 elements per container; distinct by encoded bytes",
+			Body: func(c *explore.C) { c01Static(c, tier) },
+		})
+	}
+}
+
+func c01RoundTrip(c *explore.C, s *ref.Struct, v, prior *ref.Val, what string) bool {
+	src := universe.New(s, v)
+	want := ref.Encode(s, v)
+	buf := make([]byte, len(want)+32)
+	r := Enc(buf, src.Interface())
+	if r.Panic != nil || r.Err != nil {
+		c.Fail(fmt.Sprintf("EncodeObject failed (%s): %v", what, r), mkCase("C01", "encode-failed", s, v, nil, what))
+		return false
+	}
+	dst := universe.New(s, prior)
+	d := Dec(buf[:r.N], dst.Interface())
+	if d.Panic != nil || d.Err != nil || d.N != r.N {
+		c.Fail(fmt.Sprintf("DecodeObject of frugal's own encoding (%s): %v, encoded length %d", what, d, r.N), mkCase("C01", "decode-failed", s, v, buf[:r.N], what))
+		return false
+	}
+	exp := ref.Decode(s, want, prior, ref.DecOpts{})
+	if !exp.OK {
+		panic("harness error: reference rejects its own encoding: " + what)
+	}
+	if g := universe.ReadStruct(s, dst.Elem()); g.Canon() != exp.V.Canon() {
+		c.Fail("decoded value differs from the original after the documented normalisations ("+what+")", mkCase("C01", "value-mismatch", s, v, buf[:r.N], map[string]string{"got": g.Short(), "want": exp.V.Short()}))
+		return false
+	}
+	harness.Cur.Outcome(harness.Hash64(want, []byte(what)), what[:1])
+	return true
+}
+
+func c01Static(c *explore.C, tier universe.Tier) {
+	kind := c.Choose(3, explore.Data, "static-family")
+	switch kind {
+	case 0: // all-optional defaults
+		pos := c.Choose(6, explore.Data, "position")
+		mask := c.Choose(16, explore.Data, "fields-away-from-default")
+		two := c.Bool(explore.Data, "second-element-at-defaults")
+		harness.Cur.Crumb(c.Choices())
+		hooks.Reset()
+		d, o := universe.DfltOptSpecs()
+		mkv := func(m int) *ref.Val {
+			v := ref.InitStruct(d)
+			if m&1 != 0 {
+				v.F[0] = ref.Int(ref.KI32, -9)
+			}
+			if m&2 != 0 {
+				v.F[1] = ref.Str("other")
+			}
+			if m&4 != 0 {
+				v.F[2] = ref.Double(0)
+			}
+			if m&8 != 0 {
+				v.F[3] = ref.List(ref.KList, ref.Int(ref.KI32, 4), ref.Int(ref.KI32, 5))
+			}
+			return v
+		}
+		el := []*ref.Val{mkv(mask)}
+		if two {
+			el = append(el, mkv(0))
+		}
+		ov := ref.ZeroStruct(o)
+		ov.F[1] = mkv(0)
+		switch pos {
+		case 0:
+			ov.F[0] = el[0]
+		case 1:
+			ov.F[1] = el[0]
+		case 2:
+			ov.F[2] = ref.List(ref.KList, el...)
+		case 3:
+			ov.F[3] = ref.List(ref.KSet, el...)
+		case 4, 5:
+			m := &ref.Val{K: ref.KMap}
+			for i, e := range el {
+				k := ref.Int(ref.KI32, int64(i))
+				if pos == 5 {
+					k = ref.Str(fmt.Sprint("k", i))
+				}
+				m.M = append(m.M, [2]*ref.Val{k, e})
+			}
+			ov.F[pos] = m
+		}
+		c01RoundTrip(c, o, ov, nil, fmt.Sprintf("a: DfltOptOuter position %d mask %04b", pos, mask))
+	case 1: // the default-table type at top level (destination default-initialised by the caller) and nested
+		k := c.Choose(13, explore.Data, "field")
+		alt := c.Choose(3, explore.Data, "value")
+		nested := c.Bool(explore.Data, "nested")
+		harness.Cur.Crumb(c.Choices())
+		universe.DfltTable = universe.Dflt{}
+		proto := universe.DfltSpec()
+		table := c10BaseTable(proto)
+		universe.SetDfltTable(proto, table)
+		hooks.Reset()
+		spec := universe.DfltSpec()
+		v := table.Clone()
+		al := universe.Alphabet(spec.Fields[k].Type, universe.Quick, 1)
+		switch alt {
+		case 1:
+			v.F[k] = al[0].Clone()
+		case 2:
+			v.F[k] = al[len(al)-1].Clone()
+		}
+		if !nested {
+			c01RoundTrip(c, spec, v, ref.InitStruct(spec), fmt.Sprintf("b: Dflt top-level field %s alt %d", spec.Fields[k].Name, alt))
+			return
+		}
+		outer := universe.DfltOuterSpec(spec)
+		ov := ref.ZeroStruct(outer)
+		ov.F[1] = table.Clone()
+		ov.F[2] = ref.List(ref.KList, v, table.Clone())
+		ov.F[5] = &ref.Val{K: ref.KMap, M: [][2]*ref.Val{{ref.Int(ref.KI32, 3), v.Clone()}}}
+		c01RoundTrip(c, outer, ov, nil, fmt.Sprintf("b: DfltOuter nested field %s alt %d", spec.Fields[k].Name, alt))
+	case 2: // recursion
+		maxLen := 3
+		if tier == universe.Thorough {
+			maxLen = 4
+		}
+		n := 1 + c.Choose(maxLen, explore.Data, "depth")
+		word := make([]int, n)
+		for i := range word {
+			word[i] = c.Choose(6, explore.Data, "step")
+		}
+		wide := c.Bool(explore.Data, "two-elements")
+		harness.Cur.Crumb(c.Choices())
+		hooks.Reset()
+		rs := universe.RSpec()
+		var build func(i int) *ref.Val
+		build = func(i int) *ref.Val {
+			v := ref.ZeroStruct(rs)
+			v.F[6] = ref.Int(ref.KI32, int64(100+i))
+			if i == len(word) {
+				return v
+			}
+			kids := []*ref.Val{build(i + 1)}
+			if wide {
+				leaf := ref.ZeroStruct(rs)
+				leaf.F[6] = ref.Int(ref.KI32, int64(-i-1))
+				kids = append(kids, leaf, nil) // a sibling leaf and a nil pointer element
+			}
+			switch word[i] {
+			case 0:
+				v.F[0] = kids[0]
+			case 1:
+				v.F[1] = ref.List(ref.KList, kids...)
+			case 2:
+				v.F[2] = ref.List(ref.KSet, kids...)
+			case 3:
+				m := &ref.Val{K: ref.KMap}
+				for j, k := range kids {
+					m.M = append(m.M, [2]*ref.Val{ref.Int(ref.KI32, int64(j)), k})
+				}
+				v.F[3] = m
+			case 4:
+				m := &ref.Val{K: ref.KMap}
+				for j, k := range kids {
+					if k == nil {
+						continue // a nil pointer key is one key only; keep the keys distinct
+					}
+					m.M = append(m.M, [2]*ref.Val{k, ref.Int(ref.KI32, int64(j))})
+				}
+				v.F[4] = m
+			case 5:
+				v.F[5] = ref.List(ref.KList, ref.List(ref.KList, kids...), &ref.Val{K: ref.KList, L: []*ref.Val{}})
+			}
+			return v
+		}
+		c01RoundTrip(c, rs, build(0), nil, fmt.Sprintf("c: R word %v wide=%v", word, wide))
+	}
+}
